@@ -250,5 +250,12 @@ def leaves(cfg: CFG, node: Node, expr: Optional[ast.AST], depth: int = 5, limit:
             return res
         if isinstance(e, ast.Attribute) and isinstance(e.ctx, ast.Load):
             return [(ast.Attribute(value=b, attr=e.attr, ctx=ast.Load()), at2) for b, at2 in go(e.value, at, d, stack)]
+        if isinstance(e, ast.BoolOp):
+            # `a or b` / `a and b` evaluate to one of their operands
+            return [x for v_ in e.values for x in go(v_, at, d, stack)]
+        if isinstance(e, ast.IfExp):
+            return go(e.body, at, d, stack) + go(e.orelse, at, d, stack)
+        if isinstance(e, ast.NamedExpr):
+            return go(e.value, at, d, stack)
         return [(e, at)]
     return [x for x, _ in go(expr, node, depth, ())] if expr is not None else []
